@@ -100,7 +100,7 @@ func encode(x interface{}, format, path string) (b []byte, err error, panicMsg s
 }
 
 // decode into a fresh object of the type of src
-func decode(et *etype, src interface{}, format string, b []byte, path string) (x interface{}, err error, panicMsg string) {
+func decode(et *etype, src interface{}, format string, b []byte, path string, onDisk bool) (x interface{}, err error, panicMsg string) {
 	panicMsg = vh.Try(func() {
 		ptr, get := fresh(et, src)
 		if format == "json" {
@@ -111,8 +111,10 @@ func decode(et *etype, src interface{}, format string, b []byte, path string) (x
 				err = fmt.Errorf("%T has no Import", ptr)
 				return
 			}
-			if err = ioutil.WriteFile(path, b, 0644); err != nil {
-				vh.Fatal("scratch write:", err)
+			if !onDisk {
+				if err = ioutil.WriteFile(path, b, 0644); err != nil {
+					vh.Fatal("scratch write:", err)
+				}
 			}
 			err = im.Import(path)
 		}
@@ -184,7 +186,7 @@ func (r *runner) runInst(ci, ii int, c *tcase, raw json.RawMessage, et *etype) {
 	}
 	// ---- decode
 	r.jr.at(ci, ii, "decode")
-	dec, err, pm := decode(et, src, c.Fmt, mut, path)
+	dec, err, pm := decode(et, src, c.Fmt, mut, path, roundtrip)
 	r.jr.at(ci, ii, "judge")
 	if roundtrip {
 		r.count("roundtrips")
